@@ -71,7 +71,11 @@ func BuildBinary() (string, error) {
 	if repo == "" {
 		repo = "/repo"
 	}
+	// next to the harness binary: ./check keeps one build directory per checked tree
 	dir := filepath.Join(evidence.Root(), ".build", "C14")
+	if exe, err := os.Executable(); err == nil {
+		dir = filepath.Dir(exe)
+	}
 	if err := os.MkdirAll(dir, 0o755); err != nil {
 		return "", err
 	}
